@@ -564,6 +564,123 @@ Proof.
   eexists; split; [reflexivity|]. cbn [o_alloc o_iters]. split; lia.
 Qed.
 
+
+(* ---- senc second phase ---- *)
+Lemma rd_n_ok body w s : r_err s = false -> r_pos s + w <= lenN body ->
+  r_err (snd (rd_n body w s)) = false /\ r_pos (snd (rd_n body w s)) = r_pos s + w.
+Proof.
+  intros E H. unfold rd_n. rewrite E. destruct (lenN body <? r_pos s + w) eqn:L; bools; [lia|]. cbn. auto.
+Qed.
+
+Lemma rd_skip_ok body w s : r_err s = false -> r_pos s + w <= lenN body ->
+  r_err (rd_skip body w s) = false /\ r_pos (rd_skip body w s) = r_pos s + w.
+Proof. rewrite rd_skip_eq. apply rd_n_ok. Qed.
+
+Lemma rd_loop_ok body cnt e s : r_err s = false -> r_pos s + cnt * e <= lenN body ->
+  r_err (rd_loop body cnt e s) = false /\ r_pos (rd_loop body cnt e s) = r_pos s + cnt * e.
+Proof.
+  intros E H. unfold rd_loop. rewrite E. destruct ((e =? 0) || (cnt =? 0)) eqn:Z.
+  - split; [exact E|]. apply orb_true_iff in Z. destruct Z; bools; subst; lia.
+  - destruct (lenN body <? r_pos s + cnt * e) eqn:L; bools; [lia|]. cbn. auto.
+Qed.
+
+Lemma senc_fill_loop_bounded raw iv cnt : forall fuel i s nIV al it,
+  r_err s = false -> r_pos s <= lenN raw -> (lenN raw - r_pos s) / 2 < N.of_nat fuel ->
+  exists ok nIV' al' it' s', senc_fill_loop raw fuel iv cnt i s nIV al it = Ok (ok, nIV', al', it', s') /\
+    al' <= al + 12 * (lenN raw - r_pos s) + 24 /\ it' <= it + (lenN raw - r_pos s) + 1.
+Proof.
+  induction fuel as [|f IH]; intros i s nIV al it He Hp Hf; [lia|].
+  cbn [senc_fill_loop]. unfold rem_of.
+  destruct (cnt <=? i); [do 5 eexists; split; [reflexivity|lia]|].
+  destruct ((0 <? iv) && (lenN raw - r_pos s <? iv)) eqn:G; [do 5 eexists; split; [reflexivity|lia]|].
+  assert (V : exists s1 n1 a1, (if 0 <? iv then (rd_skip raw iv s, nIV + 1, al + 24) else (s, nIV, al)) = (s1, n1, a1) /\
+              r_err s1 = false /\ r_pos s <= r_pos s1 /\ r_pos s1 <= lenN raw /\ a1 <= al + 24 /\
+              a1 + 12 * (lenN raw - r_pos s1) <= al + 12 * (lenN raw - r_pos s) + 12).
+  { destruct (0 <? iv) eqn:Ei; cbn [andb] in G; bools.
+    - destruct (rd_skip_ok raw iv s He ltac:(lia)) as [K1 K2]. do 3 eexists; split; [reflexivity|]. repeat split; try lia; auto.
+    - do 3 eexists; split; [reflexivity|]. repeat split; try lia; auto. }
+  destruct V as (s1 & n1 & a1 & -> & E1 & V1 & V2 & V3 & V4).
+  destruct (lenN raw - r_pos s1 <? 2) eqn:G2; [do 5 eexists; split; [reflexivity|lia]|]. bools.
+  destruct (rd_n_ok raw 2 s1 E1 ltac:(lia)) as [K1 K2]. destruct (rd_n raw 2 s1) as [ssc s2]. cbn [snd] in K1, K2.
+  destruct (lenN raw - r_pos s2 <? ssc * 6) eqn:G3; [do 5 eexists; split; [reflexivity|lia]|]. bools.
+  destruct (rd_loop_ok raw ssc 6 s2 K1 ltac:(lia)) as [L1 L2].
+  destruct (IH (i + 1) (rd_loop raw ssc 6 s2) n1 (a1 + 8 * ssc) (it + 1 + ssc) L1 ltac:(lia)) as (ok & n' & al' & it' & s' & -> & Ha & Hi).
+  { assert ((lenN raw - r_pos (rd_loop raw ssc 6 s2)) / 2 + 1 <= (lenN raw - r_pos s) / 2); [|lia].
+    replace ((lenN raw - r_pos (rd_loop raw ssc 6 s2)) / 2 + 1) with ((lenN raw - r_pos (rd_loop raw ssc 6 s2) + 1 * 2) / 2)
+      by (rewrite N.div_add by discriminate; reflexivity).
+    apply N.div_le_mono; [discriminate|lia]. }
+  do 5 eexists; split; [reflexivity|]. split; lia.
+Qed.
+
+Lemma senc_fill_bounded raw iv cnt : 2 * cnt <= lenN raw + 8 ->
+  exists ok a b al it, senc_fill raw iv cnt = Ok (ok, a, b, al, it) /\ al <= 24 * lenN raw + 120 /\ it <= lenN raw + 1.
+Proof.
+  intros Hc. unfold senc_fill.
+  destruct (senc_fill_loop_bounded raw iv cnt (S (length raw)) 0 rd0 0 (24 * cnt) 0 eq_refl ltac:(cbn; lia)) as (ok & n & al & it & s & -> & Ha & Hi).
+  { cbn [r_pos rd0]. assert ((lenN raw - 0) / 2 <= lenN raw - 0) by (apply N.div_le_upper_bound; lia). unfold lenN in *. lia. }
+  cbn [r_pos rd0] in Ha, Hi.
+  destruct (negb ok || negb (rem_of raw s =? 0)); do 5 eexists; (split; [reflexivity|]); split; lia.
+Qed.
+
+(* ParseReadBox under the guard established by the first phase (subsample flag => 2 * count <= len(rawData) + 8) *)
+Lemma senc_parse_bounded fl cnt raw iv : (has fl 2 = true -> 2 * cnt <= lenN raw + 8) ->
+  exists ok a b al it, senc_parse fl cnt raw iv = Ok (ok, a, b, al, it) /\ al <= 72 * lenN raw + 360 /\ it <= 3 * lenN raw + 3.
+Proof.
+  intros Hg. unfold senc_parse.
+  destruct ((cnt =? 0) || (lenN raw =? 0)); [do 5 eexists; split; [reflexivity|lia]|].
+  destruct (has fl 2) eqn:Hf; cbn [negb].
+  - specialize (Hg eq_refl).
+    destruct (negb (iv =? 0)).
+    + destruct (senc_fill_bounded raw iv cnt Hg) as (ok & a & b & al & it & -> & ? & ?). do 5 eexists; split; [reflexivity|lia].
+    + destruct (senc_fill_bounded raw 0 cnt Hg) as (ok0 & a0 & b0 & al0 & it0 & -> & ? & ?).
+      destruct ok0; [do 5 eexists; split; [reflexivity|lia]|].
+      destruct (senc_fill_bounded raw 8 cnt Hg) as (ok1 & a1 & b1 & al1 & it1 & -> & ? & ?).
+      destruct ok1; [do 5 eexists; split; [reflexivity|lia]|].
+      destruct (senc_fill_bounded raw 16 cnt Hg) as (ok2 & a2 & b2 & al2 & it2 & -> & ? & ?).
+      do 5 eexists; split; [reflexivity|lia].
+  - set (left := lenN raw mod 4294967296).
+    assert (Hl : left <= lenN raw) by (apply N.mod_le; discriminate).
+    set (iv' := if iv =? 0 then (left / cnt) mod 256 else iv).
+    destruct (left <? iv' * cnt) eqn:E; [do 5 eexists; split; [reflexivity|lia]|]. bools.
+    destruct (iv' =? 0) eqn:E0; [do 5 eexists; split; [reflexivity|lia]|]. bools.
+    assert (cnt <= lenN raw) by nia.
+    destruct ((iv' =? 8) || (iv' =? 16)); do 5 eexists; (split; [reflexivity|]); lia.
+Qed.
+
+Lemma raw_len hs hl (body : list N) : lenN (firstn (Z.to_nat (apayload_len hs hl - 8)) (skipn 8 body))
+  = N.min (Z.to_N (Z.of_N hs - Z.of_N hl - 8)) (lenN body - 8).
+Proof. unfold lenN, apayload_len. rewrite firstn_length, skipn_length. lia. Qed.
+
+(* the first phase establishes that guard (header length 8 or 16; on the reader path the body is exactly the payload) *)
+Lemma senc_guard_established p hs hl body o : hl <= 16 -> (p = false -> lenN body = hs - hl) ->
+  alloc_senc p hs hl body = Ok o -> o_ok o = true ->
+  has (flags_of (fst (rd_n body 4 rd0))) 2 = true ->
+  2 * o_count o <= lenN (firstn (Z.to_nat (apayload_len hs hl - 8)) (skipn 8 body)) + 8.
+Proof.
+  intros Hl Hb. unfold alloc_senc, alloc_senc_from.
+  destruct (hs <? 16) eqn:E16; [unfold rej; intros [= <-]; discriminate|].
+  destruct (negb p && (lenN body <? 8)) eqn:E8; [unfold rej; intros [= <-]; discriminate|].
+  pose proof (rd_n_state body 4 rd0) as A. destruct (rd_n body 4 rd0) as [vf s1]. cbn [snd fst] in *.
+  destruct (0 <? version_of vf); [unfold rej; intros [= <-]; discriminate|].
+  pose proof (rd_n_state body 4 s1) as B. destruct (rd_n body 4 s1) as [cnt s2]. cbn [snd] in B.
+  bools. rewrite raw_len. unfold apayload_len.
+  destruct p.
+  - destruct (has (flags_of vf) 2 && (hs - 16 <? 2 * cnt)) eqn:G; [unfold rej; intros [= <-]; discriminate|].
+    unfold afin. intros [= <-]. cbn [o_ok o_count andb]. intros Eok Hf. rewrite Hf in G. cbn [andb] in G. bools.
+    apply negb_true_iff in Eok. unfold rd_bytes_z in Eok.
+    destruct (Z.of_N hs - Z.of_N hl - 8 <? 0)%Z eqn:Ez; [discriminate|]. bools.
+    unfold rd_skip in Eok. destruct (r_err s2) eqn:E2; [cbn iota in Eok; congruence|].
+    destruct (lenN body <? r_pos s2 + Z.to_N (Z.of_N hs - Z.of_N hl - 8)) eqn:El; [discriminate|]. bools.
+    destruct B as [(B1 & _)|(_ & B1 & B2 & _)]; [congruence|].
+    destruct A as [(A1 & _)|(_ & _ & A2 & _)]; [congruence|]. cbn [r_pos rd0] in A2.
+    lia.
+  - specialize (Hb eq_refl).
+    destruct (has (flags_of vf) 2 && (lenN body - 8 <? 2 * cnt)) eqn:G; [unfold rej; intros [= <-]; discriminate|].
+    unfold afin. intros [= <-]. cbn [o_ok o_count andb]. intros _ Hf. rewrite Hf in G. cbn [andb] in G. bools.
+    cbn [andb negb] in E8. bools. lia.
+Qed.
+
+
 (* ---- box level ---- *)
 Definition bounded_tab (r : res aout) (n : N) : Prop :=
   exists o, r = Ok o /\ o_alloc o <= 86 * n + 1048560 /\ o_iters o <= 3 * n + 65536.
